@@ -1135,6 +1135,100 @@ def r01o(rep, F):
     rep.require_count('R01o', 'random-walk expansions', 1, 1)
 
 
+class PrefixTarget(paths.Client):
+    """auto = fingerprint of the state lv.first designates (None: unknown / stale); checks = [(call id, auto, fp of 2nd arg, path)]"""
+    track = 'none'
+
+    def __init__(self, fn, lvkey):
+        self.lv = lvkey
+        self.checks = []
+
+    def init(self, fn):
+        return None
+
+    def _vars(self, fp):
+        return set(re.findall(r'[A-Za-z_]\w*#\d+', fp or ''))
+
+    def on_node(self, fn, node, auto, ctx):
+        k = node['k']
+        if k == 'DeclStmt':
+            for d in node.get('decls', []):
+                if '%s#%d' % (d['name'], d['did']) == self.lv and d.get('init'):
+                    ini = fn.strip(d['init'])
+                    while ini is not None and ini['k'] in ('CXXConstructExpr', 'CallExpr', 'CXXTemporaryObjectExpr', 'InitListExpr') and \
+                            len([c for c in ini['ch'] if c]) == 1:
+                        ini = fn.strip(ini['ch'][0])
+                    if ini is not None and len(ini['ch']) >= 2:
+                        a0 = ini['ch'][-2] if ini.get('callee') == 'std::make_pair' or ini['k'] != 'CallExpr' else ini['ch'][-2]
+                        return nofp_keep(fn.fp(a0))
+                    return None
+        w = None
+        if k == 'BinaryOperator' and node.get('op') == '=':
+            w = node
+        if w is not None:
+            t = fn.strip(w['ch'][0])
+            if t is not None and t['k'] == 'MemberExpr' and t.get('name') == 'first' and key(fn, t['ch'][0]) == self.lv:
+                return nofp_keep(fn.fp(w['ch'][1]))
+        # a write to a variable the designation mentions makes it stale (e.g. the index of states[j])
+        if auto is not None and k in ('BinaryOperator', 'CompoundAssignOperator', 'UnaryOperator') and \
+                node.get('op') in ('=', '+=', '-=', '++', '--') and node['ch']:
+            kk = key(fn, node['ch'][0])
+            if kk and kk in self._vars(auto):
+                return None
+        if node.get('callee') in P.CHECK_CALLEES and len(args(fn, node)) >= 3 and key(fn, args(fn, node)[2]) == self.lv:
+            self.checks.append((node['id'], auto, nofp_keep(fn.fp(args(fn, node)[1])), ctx.path()))
+        return auto
+
+
+def nofp_keep(s):
+    return s
+
+
+def r01r(rep, F):
+    rep.rule('R01r', 'validated-prefix target: where a 3-argument motion check checkMotion(a, b, lv) is used so that a failed check '
+                     'still keeps the candidate (the verdict is ignored or or-ed with lv.second > eps) and the function never reads '
+                     'lv.first afterwards -- so the truncated state can only arrive in b itself -- lv.first designates b at the call '
+                     'on every path (pair constructed from b, or lv.first = b with no later change of b\'s index).  Otherwise the '
+                     'validator truncates some other storage and the raw, unvalidated candidate is linked (KPIECE1, BKPIECE1, STRIDE, '
+                     'PDST, SpaceInformation::randomBounceMotion whose walk PRM and QMP turn into roadmap edges)')
+    n = 0
+    fns = [f for f in F.functions if f.body and f.file.endswith('.cpp') and ('/geometric/planners/' in f.file or '/multilevel/' in f.file or
+                                                                            f.file.endswith('base/src/SpaceInformation.cpp'))]
+    for f in fns:
+        for c in [x for x in f.walk() if x.get('callee') in P.CHECK_CALLEES and len(args(f, x)) >= 3]:
+            lvk = key(f, args(f, c)[2])
+            if lvk is None:
+                continue
+            did = int(lvk.split('#')[1])
+            if any(p['did'] == did for p in f.params):
+                continue            # forwarding wrapper: the caller owns the pair
+            # reads of lv.first after the call (variant with separate storage: the planner copies from lv.first itself)
+            line = f.line(c)
+            reads = [m for m in f.walk() if m['k'] == 'MemberExpr' and m.get('name') == 'first' and m['ch'] and key(f, m['ch'][0]) == lvk and
+                     not (f.nodes.get(f.parent.get(m['id'])) or {}).get('op') == '=' and f.line(m) >= line and m['id'] not in
+                     {z['id'] for z in f.walk(c['id'])}]
+            # `lv.first = x` has the MemberExpr as its left operand: exclude pure stores
+            reads = [m for m in reads if not any(a['k'] == 'BinaryOperator' and a.get('op') == '=' and f.strip(a['ch'][0]) is not None and
+                                                 f.strip(a['ch'][0])['id'] == m['id'] for a in f.ancestors(m['id']))]
+            if reads:
+                continue
+            cl = PrefixTarget(f, lvk)
+            paths.run_function(f, cl, F)
+            mine = [x for x in cl.checks if x[0] == c['id']]
+            if not mine:
+                continue
+            if all(x[1] == 'null' for x in mine):
+                continue            # no last-valid state requested (only the fraction is used)
+            n += 1
+            bad = [x for x in mine if x[1] != x[2]]
+            rep.add('R01r', f.name, 'prefix-target-is-candidate#%d' % f.line(c) if False else 'prefix-target-is-candidate', not bad, f.where(c),
+                    'lv.first designates the candidate %s at the check' % nofp(mine[0][2]) if not bad else
+                    'the check truncates into %s while the candidate that is kept is %s: after a failed check the raw candidate, whose '
+                    'motion was just rejected, is used' % (nofp(bad[0][1]) if bad[0][1] else 'a stale / unknown state', nofp(bad[0][2])),
+                    bad[0][3] if bad else None)
+    rep.require_count('R01r', 'validated-prefix checks', n, 5)
+
+
 def run(rep):
     units = P.geometric_units() + P.multilevel_units() + P.base_units()
     F = facts.load_units(units)
@@ -1165,6 +1259,18 @@ def run(rep):
     r01m(rep, F)
     r01n(rep, F)
     r01o(rep, F)
+    r01r(rep, F)
+    # R01s: the (best distance / cost, what it belongs to) pairing rule of C04 (R04j), evaluated here over every geometric planner:
+    # the reported goal difference and the path / node / flag it describes are updated together
+    from rules import c04
+    c04.r04j(rep, F)
+    rep.rule_text['R01s'] = rep.rule_text.pop('R04j') + '  (C04\'s R04j evaluated over all geometric and multilevel planner units: the goal ' \
+        'difference reported with an approximate path belongs to that path)'
+    for o in rep.obl:
+        if o['rule'] == 'R04j':
+            o['rule'] = 'R01s'
+    rep.nontrivial = {(('R01s' if r == 'R04j' else r), fn_, role) for (r, fn_, role) in rep.nontrivial}
+    rep.broken = [b.replace('R04j', 'R01s') for b in rep.broken]
     from rules import c01_informed
     c01_informed.r01p(rep, F)
     c01_informed.r01q(rep, F)
